@@ -7,8 +7,15 @@ export CARGO_NET_OFFLINE=true
 HEAD=$(git -C /repo rev-parse HEAD)
 if [ ! -d "$WT" ]; then git -C /repo worktree add -q --detach "$WT" "$HEAD" || exit 2; fi
 git -C "$WT" checkout -q --detach "$HEAD" && git -C "$WT" checkout -q -- . 
+LINKS=""
 for d in "$@"; do
   name=$(basename "$d")
+  # demos written by the seeding agents may hard-code their own worktree / target paths: point those at the scratch worktree
+  prop=${name%%-*}
+  for pair in "/tmp/wt-$prop:$WT" "/tmp/wt-$prop-target:$CARGO_TARGET_DIR"; do
+    ln_path=${pair%%:*}; ln_to=${pair#*:}
+    if [ ! -e "$ln_path" ]; then mkdir -p "$ln_to"; ln -s "$ln_to" "$ln_path"; LINKS="$LINKS $ln_path"; fi
+  done
   echo "=== $name"
   git -C "$WT" checkout -q -- .
   base="$HEAD"
@@ -30,3 +37,4 @@ json.dump({"seed":name,"applies":True,"base":base,"suite_with_change":suite.stri
 print("confirmed" if ok else "NOT CONFIRMED")
 PY
 done
+for l in $LINKS; do [ -L "$l" ] && rm -f "$l"; done
